@@ -34,7 +34,9 @@ Oracle (from the property statement, independent of y0 and of the model; harness
       ||Y_x|| (harness's own ancestor code), no repeated item, a valueless copy of a valued variable absorbed; not judged
       on queries with a self-intervened variable (C19's open simplify-reflexive findings);
   (t') a validator may reject with TypeError / ValueError / NotImplementedError only: any other exception raised by the
-      validator itself is a failure.
+      validator itself is a failure;
+  (f) FAIL although transportable (fifth round; streams multi_domain / fallthrough only): the full domain list is refused
+      although one entry of it alone answers the query with a value the exact oracle accepts.
 """
 from __future__ import annotations
 
@@ -68,6 +70,15 @@ RULE = ("target ADMGs with 2-5 nodes x 1-2 domains (selection diagram = the targ
         "stream (events SIMPLIFY changes: repeated item, valueless copy of a valued variable, causally irrelevant subscript); "
         "an INCONSISTENT-FACTOR stream (Definition 4.1 (i) / (ii) inside one district: FAIL is the only right answer); source "
         "mechanisms at marked variables are redrawn until every kernel row differs from the target's; "
+        "fifth round (gap review): a MULTI-DOMAIN stream (3-4 source domains such that one chosen ctf-factor can be transported "
+        "only from the LAST list entry, population tags in shuffled order pi1..pi6, a repeated record, a target-tagged entry with "
+        "an uncut policy variable; one case in three conditional); a FALL-THROUGH stream (bow X -> Y, X <-> Y into the ctf-factor of "
+        "Y_x: a usable domain in which IDENTIFY fails followed or preceded by a domain with a cut policy on X that succeeds, "
+        "optionally a third unusable domain); a STRUCTURED CONDITIONAL stream (single-world events of 2-4 items over distinct "
+        "variables split into outcomes and conditions, >= 3 conditions or >= 3 outcomes frequent, two-domain constructions); an "
+        "ARGUMENT-FORMS stream (one Variable instead of a one-element list, CFTDomain(population=<Population>), ordering=None); "
+        "the malformed stream damages a random entry of the domain list (also a cyclic DOMAIN graph); thorough tier only: 600 "
+        "six-node graphs (<= 3 bidirected edges, binary variables) with the value oracle raised to 6 nodes; "
         "the worked examples of Correa et al. 2022 and the minimal witnesses of the mutation table as corpus; "
         "plus a malformed stream for every class of the validators (event / outcome / condition outside the graph, order with "
         "a wrong edge or a missing vertex, ...). A case is non-trivial when validation passes, the graph "
@@ -153,6 +164,11 @@ ASSUMPTIONS = [
     "different stars) is evaluated under every choice; the check reports only when no choice is right; a name bound by "
     "neither the returned event nor a subscript of the query is read universally (the value must be right for each of its "
     "values); ctfTR's returned event carries base variables only, so the literal subscripts are read from the query",
+    "FAIL is judged for necessity on two streams only (multi_domain, fallthrough, built so that ONE entry of the domain list "
+    "suffices): a refusal of the full list is a failure when the same query is answered from a single entry of the list alone "
+    "with a value the exact oracle accepts (clause (f): Algorithm 4 tries every domain; a procedure that stops at the first "
+    "usable domain only produces more FAILs and was invisible before; measured: the mutant `return district_q_probability` "
+    "inside the loop gives 152 failures of 300 fall-through cases). Elsewhere "
     "FAIL and validation errors are never judged for necessity: a change that only refuses or rejects MORE inputs (selection "
     "nodes tested on all vertices, Zero replaced by FAIL, a larger D*, a stricter validator) keeps C09 as stated and is seen "
     "by the correspondence only (tools/c09_mutants.py lists these as `equiv`); inputs with an invalid topological order are "
